@@ -428,7 +428,201 @@ func c09Chain(w *W) {
 	}
 }
 
+// c09ChainTTL: heterogeneous TTLs along a chain. Every socket on the path gets
+// its own tape-chosen TTL before Device() is started on it; a message from the
+// client is delivered to the server if and only if, at every socket that
+// receives it on the way, the number of connections crossed so far is within
+// that socket's limit (TTL; TTL+1 for PAIR1). The TTL of sockets that only
+// send in that direction (the back side of a device) plays no part, and
+// running a device on a socket does not change the socket's TTL.
+func c09ChainTTL(w *W) {
+	fams := []c9Family{c9Families[0], c9Families[1], c9Families[5], c9Families[6]}
+	fam := fams[w.Choose(simrt.SShape, len(fams))]
+	d := 1 + w.Choose(simrt.SShape, 3)
+	tran := []string{"inproc", "sim", "tcp", "ipc"}[w.Choose(simrt.SShape, 4)]
+	ttls := []int{1, 2, 3, 4, 8}
+	pick := func() int { return ttls[w.Choose(simrt.SShape, len(ttls))] }
+	w.SetShape("family", fam.name)
+	w.SetShape("devices", d)
+	w.SetShape("tran", tran)
+	w.UseNet(NetCfg{})
+	var all []mangos.Socket
+	defer func() {
+		for _, s := range all {
+			s.Close()
+		}
+	}()
+	sock := func(kind string, ttl int) mangos.Socket {
+		s := w.Sock(kind)
+		all = append(all, s)
+		if ttl > 0 {
+			mustSet(w, s, mangos.OptionTTL, ttl)
+		}
+		return s
+	}
+	limitOf := func(ttl int) int {
+		if fam.name == "pair1" {
+			return ttl + 1
+		}
+		return ttl
+	}
+	type hop struct {
+		s    mangos.Socket
+		name string
+		ttl  int
+	}
+	var devSocks []hop // every device socket, to read the TTL back afterwards
+	serverTTL := pick()
+	server := sock(fam.serve, serverTTL)
+	endAddr := w.Addr(tran)
+	if err := w.ListenOn(server, endAddr); err != nil {
+		w.Failf("HARNESS/listen", "%v", err)
+		return
+	}
+	// devices from the server side towards the client: device number i (from
+	// the client) receives the client's message after i connections
+	next := endAddr
+	frontTTL := make([]int, d+1)
+	var desc []string
+	for i := d; i >= 1; i-- {
+		ft, bt := pick(), pick()
+		frontTTL[i] = ft
+		if fam.devBack == "" {
+			x := sock(fam.devFront, ft)
+			devSocks = append(devSocks, hop{x, fmt.Sprintf("forwarder %d (%s)", i, fam.devFront), ft})
+			if err := w.DialOn(x, next); err != nil {
+				w.Failf("HARNESS/dev-dial", "%v", err)
+				return
+			}
+			next = w.Addr(tran)
+			if err := w.ListenOn(x, next); err != nil {
+				w.Failf("HARNESS/dev-listen", "%v", err)
+				return
+			}
+			desc = append(desc, fmt.Sprintf("forwarder%d ttl=%d", i, ft))
+			continue
+		}
+		front, back := sock(fam.devFront, ft), sock(fam.devBack, 0)
+		// (the requesting-side raw sockets have no TTL option in some patterns)
+		if err := back.SetOption(mangos.OptionTTL, bt); err != nil {
+			bt = 0
+		} else {
+			devSocks = append(devSocks, hop{back, fmt.Sprintf("device %d back (%s)", i, fam.devBack), bt})
+		}
+		devSocks = append(devSocks, hop{front, fmt.Sprintf("device %d front (%s)", i, fam.devFront), ft})
+		if err := w.DialOn(back, next); err != nil {
+			w.Failf("HARNESS/dev-dial", "%v", err)
+			return
+		}
+		next = w.Addr(tran)
+		if err := w.ListenOn(front, next); err != nil {
+			w.Failf("HARNESS/dev-listen", "%v", err)
+			return
+		}
+		if err := mangos.Device(front, back); err != nil {
+			w.Failf("C09/device-refused", "Device(%s,%s): %v", fam.devFront, fam.devBack, err)
+			return
+		}
+		desc = append(desc, fmt.Sprintf("device%d front ttl=%d back ttl=%d", i, ft, bt))
+	}
+	client := sock(fam.client, 0)
+	if err := w.DialOn(client, next); err != nil {
+		w.Failf("HARNESS/client-dial", "%v", err)
+		return
+	}
+	w.Sleep(5 * time.Millisecond)
+	w.Settle()
+	for _, h := range devSocks {
+		if v, err := h.s.GetOption(mangos.OptionTTL); err != nil || v != h.ttl {
+			w.Failf("C09/device-changed-ttl:"+fam.name, "%s was given TTL %d before it was put to work; GetOption(TTL) now returns (%v, %v)", h.name, h.ttl, v, err)
+			return
+		}
+	}
+	want := d+1 <= limitOf(serverTTL)
+	blockedAt := ""
+	for i := 1; i <= d; i++ {
+		if i > limitOf(frontTTL[i]) {
+			want = false
+			if blockedAt == "" {
+				blockedAt = fmt.Sprintf("device %d (TTL %d) after %d connections", i, frontTTL[i], i)
+			}
+		}
+	}
+	if blockedAt == "" && !want {
+		blockedAt = fmt.Sprintf("the server (TTL %d) after %d connections", serverTTL, d+1)
+	}
+	w.Op("%s: client -> %v -> server ttl=%d over %s; expect delivered=%v %s", fam.name, desc, serverTTL, tran, want, blockedAt)
+	delivered := false
+	switch {
+	case fam.reply:
+		mustSet(w, server, mangos.OptionRecvDeadline, 400*time.Millisecond)
+		srv := w.Do("server", func() (interface{}, error) {
+			m, err := server.Recv()
+			if err != nil {
+				return nil, err
+			}
+			return string(m), server.Send(append([]byte("re:"), m...))
+		})
+		mustSet(w, client, mangos.OptionRecvDeadline, 300*time.Millisecond)
+		if fam.name == "survey" {
+			mustSet(w, client, mangos.OptionSurveyTime, 300*time.Millisecond)
+		} else {
+			mustSet(w, client, mangos.OptionRetryTime, time.Hour)
+		}
+		cl := w.Do("client", func() (interface{}, error) {
+			if err := client.Send([]byte("question")); err != nil {
+				return nil, err
+			}
+			return client.Recv()
+		})
+		if !cl.Wait(5*time.Second) || !srv.Wait(5*time.Second) {
+			w.Failf("C09/chain-stuck:"+fam.name, "a bounded round trip did not finish")
+			return
+		}
+		delivered = srv.Err == nil
+		if delivered && srv.Val != "question" {
+			w.Failf("C09/payload-changed:"+fam.name, "the server received %q", srv.Val)
+			return
+		}
+		if delivered && (cl.Err != nil || string(cl.Val.([]byte)) != "re:question") {
+			w.Failf("C09/chain-lost-message:"+fam.name, "%s through %d devices: the request was delivered (every TTL on its way admits it) but the reply did not come back: (%v, %v)", fam.name, d, cl.Val, cl.Err)
+			return
+		}
+	default:
+		mustSet(w, server, mangos.OptionRecvDeadline, 300*time.Millisecond)
+		srv := w.Do("server", func() (interface{}, error) { return server.Recv() })
+		if err := client.Send([]byte("note")); err != nil {
+			w.Failf("HARNESS/send", "%v", err)
+			return
+		}
+		if !srv.Wait(5 * time.Second) {
+			w.Failf("C18/late", "Recv with a 300ms deadline pending")
+			return
+		}
+		delivered = srv.Err == nil
+		if delivered && string(srv.Val.([]byte)) != "note" {
+			w.Failf("C09/payload-changed:"+fam.name, "the server received %q", srv.Val)
+			return
+		}
+	}
+	if delivered != want {
+		which, verb := "in-limit-dropped", "was dropped"
+		if delivered {
+			which, verb = "over-limit-delivered", "was delivered"
+		}
+		w.Failf("C09/"+which+":chain:"+fam.name, "%s: client -> %v -> server (TTL %d): the message %s; expected delivered=%v %s", fam.name, desc, serverTTL, verb, want, blockedAt)
+		return
+	}
+	w.Delivery++
+	if want {
+		w.Probe("chain-ttl-delivered")
+	} else {
+		w.Probe("chain-ttl-dropped")
+	}
+}
+
 func init() {
+	register(&Scenario{Name: "device-chain-ttl", Prop: "C09", Horizon: time.Hour, Run: c09ChainTTL})
 	register(&Scenario{Name: "ttl-grid", Prop: "C09", Horizon: time.Hour, Run: c09Grid})
 	register(&Scenario{Name: "device-chains", Prop: "C09", Horizon: time.Hour, Run: c09Chain})
 }
